@@ -16,7 +16,7 @@ RULE = ("Hypothesis: n=3..4 (5 with k<=2 in thorough), hidden game(s) from harne
         "knowledge K0 = minimal + drawn extras, size limit k (or None), gap function, computer, worker-process counts drawn from "
         "{1,2,3,5,16}. Oracles: (1) get_exploitabilities_of_action_sequences returns exactly one entry per subset of size <= k of "
         "the unknown coalitions (multiset equality with itertools.combinations over an own list), sizes non-decreasing, each value == "
-        "gap of a FRESH object knowing K0 + the set (independent gap oracle); (2) identical lists for every process count; (3) "
+        "gap of a FRESH object knowing K0 + the set (independent gap oracle); (2) identical lists for every process count - in half of the cases all searches (the single-process one twice) are made on ONE incomplete-game object, which must come back unchanged whatever the process count; (3) "
         "MetaGame.get_value agrees; (4) sample_exploitabilities_of_action_sequences: row j is the result for game j of a cyclic "
         "list; (5) get_best_exploitability: per size the reported row is the gap vector of the reported set, its mean the minimum "
         "over ALL sets of that size (own brute force), curve non-increasing for games of the class. Non-trivial: K0 strictly larger "
@@ -60,10 +60,29 @@ def check_case(case: dict) -> Result:
     v0 = vals[0]
     full0 = libgames.spec_game(specs[0])
     base = None
-    for p in case["procs"]:
-        game = repo.new_game(n, comp)
-        repo.set_knowledge(game, v0, K0)
+    shared = None
+    state0 = None
+    procs = list(case["procs"])
+    if case.get("same_object"):
+        # one incomplete-game object serves all searches (a sweep over process counts on one object); the single-process search
+        # runs twice.  The object handed in must come back as it went in, whatever the process count.
+        shared = repo.new_game(n, comp)
+        repo.set_knowledge(shared, v0, K0)
+        state0 = repo.table_bytes(shared)
+        procs = [procs[0]] + procs
+        res.label("same-object")
+    for p in procs:
+        if shared is not None:
+            game = shared
+        else:
+            game = repo.new_game(n, comp)
+            repo.set_knowledge(game, v0, K0)
         out = list(get_exploitabilities_of_action_sequences(game, full0, gf, k, p))
+        if shared is not None and repo.table_bytes(shared) != state0:
+            known_now = sorted(s for s, f in enumerate(repo.table(shared)[0]) if f)
+            res.fail(f"search-alters-callers-game :: n={n} k={k} p={p}: the incomplete game handed to the search knows {known_now} afterwards, "
+                     f"it knew {sorted(K0)} before (depends on the process count: a pool works on copies)")
+            break
         got_sets = [frozenset(c.id for c in seq) for seq, _ in out]
         w = f"n={n} k={k} p={p}"
         if sorted(map(sorted, got_sets)) != sorted(map(sorted, want_sets)):
@@ -76,7 +95,7 @@ def check_case(case: dict) -> Result:
         sizes = [len(x) for x in got_sets]
         if sizes != sorted(sizes):
             res.fail(f"order :: {w}: sizes not non-decreasing")
-        if p == case["procs"][0]:
+        if base is None:
             for (seq, val), st_ in zip(out, got_sets):
                 want, tol = _fresh_gap(n, comp, gap, v0, K0 | set(st_))
                 if abs(float(val) - want) > tol:
@@ -236,7 +255,7 @@ def cases(draw, n_max: int):
             games = games[:1] if src != "lib" else games[:2]
     gaps = ["exploitability", "exploitability", "exploitability", "l1_norm"] if want_best else ["exploitability", "l1_norm", "l2_norm", "linf_norm"]
     return {"n": n, "games": games, "computer": comp, "gap": draw(st.sampled_from(gaps)),
-            "k": k, "extra": sorted(extra), "procs": procs, "meta": meta, "best": best}
+            "k": k, "extra": sorted(extra), "procs": procs, "meta": meta, "best": best, "same_object": draw(st.booleans())}
 
 
 def _sample(case):
